@@ -214,6 +214,15 @@ func init() {
 	mutant(&Mutant{Name: "setfill-expires-guard", Props: []string{"C19", "C14"}, File: fColl,
 		Old: "\tif obj.Expires() != 0 {\n\t\tc.expires.Set(obj)\n\t}", New: "\tif obj.Expires() > 0 {\n\t\tc.expires.Set(obj)\n\t}",
 		Expect: "R19.delta", Key: "expires", Why: "insert and delete guards of the expiry index disagree"})
+	mutant(&Mutant{Name: "setfill-expires-entered-before-retired", Props: []string{"C19", "C14"}, File: fColl,
+		Old:    "\t\tif prev.Expires() != 0 {\n\t\t\tc.expires.Delete(prev)\n\t\t}\n\t\tc.points -= prev.Geo().NumPoints()\n\t\tc.weight -= prev.Weight()\n\t}",
+		New:    "\t\tc.points -= prev.Geo().NumPoints()\n\t\tc.weight -= prev.Weight()\n\t}",
+		Edits:  []Edit{{fColl, "\tif obj.Expires() != 0 {\n\t\tc.expires.Set(obj)\n\t}\n\tc.points += obj", "\tif obj.Expires() != 0 {\n\t\tc.expires.Set(obj)\n\t}\n\tif prev != nil && prev.Expires() != 0 {\n\t\tc.expires.Delete(prev)\n\t}\n\tc.points += obj"}},
+		Expect: "R19.delta", Key: "order/expires", Why: "the new deadline is entered before the previous one is retired: with the same id and deadline the new entry is the one removed and the object never expires"})
+	mutant(&Mutant{Name: "indexinsert-unguarded", Props: []string{"C19", "C02"}, File: fColl,
+		Old:    "func (c *Collection) indexInsert(item *object.Object) {\n\tif !item.Geo().Empty() {\n\t\tc.spatial.Insert(rtreeItem(item))\n\t}\n}",
+		New:    "func (c *Collection) indexInsert(item *object.Object) {\n\tc.spatial.Insert(rtreeItem(item))\n}",
+		Expect: "R19.delta", Key: "inverse/spatial", Why: "objects with an empty geometry enter the spatial index and are never removed from it"})
 	mutant(&Mutant{Name: "collection-extra-writer", Props: []string{"C19"}, File: fColl,
 		Old: "// Get returns an object.", New: "// Touch is a test helper.\nfunc (c *Collection) Touch() { c.objects++ }\n\n// Get returns an object.",
 		Expect: "R19.who-writes", Key: "Touch", Why: "a counter written outside the bookkeeping functions"})
@@ -379,6 +388,15 @@ func init() {
 		Expect: "R5.under-lock", Key: "FenceMatch", Why: "fence evaluation under the shared lock"})
 
 	// ---- R16 ---------------------------------------------------------------
+	mutant(&Mutant{Name: "netserve-protocol-memory-per-read", Props: []string{"C16"}, File: fServer,
+		Old:    "\t\t\tvar lastConnType Type\n\t\t\tvar lastOutputType Type\n\n",
+		New:    "",
+		Edits:  []Edit{{fServer, "\t\t\t\tvar close bool\n\t\t\t\tn, err := conn.Read(packet)", "\t\t\t\tvar close bool\n\t\t\t\tvar lastConnType, lastOutputType Type\n\t\t\t\tn, err := conn.Read(packet)"}},
+		Expect: "R16.per-read-state", Key: "netServe$conn/lastConnType", Why: "the connection's memory of the peer's protocol is reset by every read: the reply to malformed input depends on where the read boundaries fell"})
+	mutant(&Mutant{Name: "netserve-buffer-grown", Props: []string{"C16"}, File: fServer,
+		Old:    "\t\t\t\tpr.rd = rdbuf\n",
+		New:    "\t\t\t\tpr.rd = rdbuf\n\t\t\t\trdbuf.WriteByte('\\n')\n",
+		Expect: "R16.bounds", Key: "netServe$2→packet[len(packet)", Why: "the buffer over the packet is written to: its unread length can exceed len(packet) and the tail expression panics"})
 	mutant(&Mutant{Name: "expire-arity-loosened", Props: []string{"C16"}, File: fCrud,
 		Old:    "\targs := msg.Args\n\tif len(args) != 4 {\n\t\treturn retwerr(errInvalidNumberOfArguments)\n\t}\n\tkey, id, svalue := args[1], args[2], args[3]",
 		New:    "\targs := msg.Args\n\tif len(args) < 3 {\n\t\treturn retwerr(errInvalidNumberOfArguments)\n\t}\n\tkey, id, svalue := args[1], args[2], args[3]",
@@ -445,9 +463,9 @@ func init() {
 		Expect: "R16.pool-pairing", Key: "put-runs-last", Why: "reverse of the defer-order fix"})
 
 	// ---- neutral variants --------------------------------------------------
-	mutant(&Mutant{Name: "neutral-rename-write-flag", Props: []string{"C03", "C07", "C15"}, Neutral: true, File: fScripts,
-		Old: "func (s *Server) luaTile38NonAtomic(msg *Message) (resp.Value, error) {\n\tvar write bool\n", New: "func (s *Server) luaTile38NonAtomic(msg *Message) (resp.Value, error) {\n\tvar write bool\n\t_ = \"neutral\"\n",
-		Why: "an inert statement"})
+	mutant(&Mutant{Name: "neutral-rename-write-flag", Props: []string{"C03", "C07", "C15", "C18"}, Neutral: true, File: fScripts,
+		Edits: []Edit{{fScripts, `re:\bwrite\b`, "mutating"}},
+		Why:   "the write flag of the three script class functions renamed: the flag is recognised by its role (the boolean local the arms set), not by its name"})
 	mutant(&Mutant{Name: "neutral-prewrite-helper", Props: []string{"C07", "C08"}, Neutral: true, File: fServer,
 		Old:   "\t\t\t\t\tif s.aofdirty.Load() {\n\t\t\t\t\t\tfunc() {\n\t\t\t\t\t\t\t// prewrite\n\t\t\t\t\t\t\ts.mu.Lock()\n\t\t\t\t\t\t\tdefer s.mu.Unlock()\n\t\t\t\t\t\t\ts.flushAOF(false)\n\t\t\t\t\t\t\ts.aofdirty.Store(false)\n\t\t\t\t\t\t}()\n\t\t\t\t\t}",
 		New:   "\t\t\t\t\ts.prewriteNeutral()",
@@ -556,7 +574,7 @@ func init() {
 		New: "\t\t\t\t\t}\n\t\t\t\t}\n\t\t\t\tif len(keys) >= 1<<20 {\n\t\t\t\t\tmore = true\n\t\t\t\t\treturn false\n\t\t\t\t}\n\t\t\t\treturn true\n\t\t\t},\n\t\t)",
 		Edits: []Edit{
 			{fHooks, "\tvar ttls []time.Duration\n\tstart := time.Now()\n\terr := h.db.Update(", "\tvar ttls []time.Duration\n\tvar more bool\n\tstart := time.Now()\n\terr := h.db.Update("},
-			{fHooks, "\t\t\treturn false\n\t\t}\n\t}\n\treturn true\n}", "\t\t\treturn false\n\t\t}\n\t}\n\tif more {\n\t\treturn false\n\t}\n\treturn true\n}"},
+			{fHooks, "\t\t\t\treturn nil\n\t\t\t})\n\t\t\treturn false\n\t\t}\n\t}\n\treturn true\n}", "\t\t\t\treturn nil\n\t\t\t})\n\t\t\treturn false\n\t\t}\n\t}\n\tif more {\n\t\treturn false\n\t}\n\treturn true\n}"},
 		},
 		Why: "a bounded batch that reports 'not drained' when it stopped early"})
 }
@@ -653,6 +671,14 @@ func init() {
 		Old:    "func appendJSONString(b []byte, s string) []byte {\n\tfor i := 0; i < len(s); i++ {",
 		New:    "func appendJSONString(b []byte, s string) []byte {\n\tfor i := 1; i < len(s); i++ {",
 		Expect: "R17.string-encoder", Key: "appendJSONString/scans-every-byte", Why: "a leading quote is emitted raw"})
+	mutant(&Mutant{Name: "writeerr-resp-line-by-hand", Props: []string{"C17", "C16"}, File: fServer,
+		Old:    "\t\t\tv, _ := resp.ErrorValue(errors.New(errMsg)).MarshalRESP()\n\t\t\treturn writeOutput(string(v))",
+		New:    "\t\t\t_ = errors.New\n\t\t\treturn writeOutput(\"-\" + errMsg + \"\\r\\n\")",
+		Expect: "R17.resp-lines", Key: "handleInputCommand→errMsg", Why: "the error text, which echoes client arguments, is written as a RESP error line without blanking control characters: an argument with CR LF ends the reply early"})
+	mutant(&Mutant{Name: "monitor-raw-arguments", Props: []string{"C17"}, File: "internal/server/monitor.go",
+		Old:    "\t\tline = append(line, strconv.Quote(arg)...)",
+		New:    "\t\tline = append(line, arg...)\n\t\t_ = strconv.Quote",
+		Expect: "R17.resp-lines", Key: "sendMonitor→line", Why: "MONITOR lines carry the raw arguments: a CR LF in an argument splits the line"})
 	mutant(&Mutant{Name: "neutral-jsonstring-stricter-test", Props: []string{"C17"}, File: fJSON, Neutral: true,
 		Old: "func jsonString(s string) string {\n\tfor i := 0; i < len(s); i++ {\n\t\tif s[i] < ' ' || s[i] == '\\\\' || s[i] == '\"' || s[i] > 126 {",
 		New: "func jsonString(s string) string {\n\tfor i := 0; i < len(s); i++ {\n\t\tif s[i] < 0x20 || s[i] == '\\\\' || s[i] == '\"' || s[i] >= 0x7f || s[i] == '<' {",
@@ -739,8 +765,8 @@ func init() {
 		New:    "\t\t\tprevHook.expires = hook.expires\n\t\t\tprevHook.Signal()\n\t\t\tif !hook.expires.IsZero() {\n\t\t\t\ts.hookExpires.Set(prevHook)\n\t\t\t}",
 		Expect: "R3.hook-immutable", Key: "Hook.expires", Why: "second seeded change for C03: the equal-hook path changes the registered hook and is not logged"})
 	mutant(&Mutant{Name: "delhook-clears-endpoints", Props: []string{"C03"}, File: fHooks,
-		Old:    "\thook.Close()\n\t// remove previous hook from spatial index",
-		New:    "\thook.Close()\n\thook.Endpoints = nil\n\t// remove previous hook from spatial index",
+		Old:    "\thook.Close()\n\t// remove hook from maps",
+		New:    "\thook.Close()\n\thook.Endpoints = nil\n\t// remove hook from maps",
 		Expect: "R3.hook-immutable", Key: "Hook.Endpoints", Why: "a registered hook changed in place"})
 	mutant(&Mutant{Name: "fence-cross-alias-no-restore", Props: []string{"C05"}, File: fFence,
 		Old:    "\t\t\t\t\t\ttemp := false\n\t\t\t\t\t\tif fence.cmd == \"within\" {\n\t\t\t\t\t\t\t// because we are testing if the line croses the area we need to use\n\t\t\t\t\t\t\t// \"intersects\" instead of \"within\".\n\t\t\t\t\t\t\tfence.cmd = \"intersects\"\n\t\t\t\t\t\t\ttemp = true\n\t\t\t\t\t\t}",
@@ -795,6 +821,9 @@ func init() {
 		Old:    "\t\t\t\t\t\t\tif o.Expires() != 0 {\n\t\t\t\t\t\t\t\tttl := math.Floor(",
 		New:    "\t\t\t\t\t\t\tif o.Expires() != 0 && o.Expires() > now {\n\t\t\t\t\t\t\t\tttl := math.Floor(",
 		Expect: "R9.emit-covers-state", Key: "object/ex", Why: "an object past its deadline but not yet swept is rewritten without a deadline and becomes permanent"})
+	mutant(&Mutant{Name: "neutral-shrink-renames-callback-params", Props: []string{"C09"}, File: fShrink, Neutral: true,
+		Edits: []Edit{{fShrink, `re:\bo\b`, "obj"}, {fShrink, "func(f field.Field) bool {", "func(fld field.Field) bool {"}, {fShrink, "if !f.Value().IsZero() {", "if !fld.Value().IsZero() {"}, {fShrink, "append(values, f.Name())", "append(values, fld.Name())"}, {fShrink, "append(values, f.Value().JSON())", "append(values, fld.Value().JSON())"}, {fShrink, `re:\bhook\b`, "hk"}},
+		Why:   "the callback parameters and the hook local renamed: the guards are compared by the types of their operands, not by their names"})
 	mutant(&Mutant{Name: "shrink-drops-negative-fields", Props: []string{"C09"}, File: fShrink,
 		Old:    "\t\t\t\t\t\t\t\tif !f.Value().IsZero() {\n",
 		New:    "\t\t\t\t\t\t\t\tif !f.Value().IsZero() && f.Value().Num() >= 0 {\n",
